@@ -557,8 +557,21 @@ class Client(object):
             except Exception:  # noqa
                 pass
             return "refused"
+        except (ConnectionResetError, ConnectionAbortedError, BrokenPipeError, socket.timeout):
+            # what a client of a dying server may see; an observation about the server, not trouble of the harness
+            try:
+                s.close()
+            except Exception:  # noqa
+                pass
+            return "reset"
         except OSError as ex:
-            raise Infra("client connect failed unexpectedly: %r" % (ex,))
+            if ex.errno in (errno.EMFILE, errno.ENFILE, errno.EADDRNOTAVAIL, errno.ENOBUFS, errno.ENOMEM):
+                raise Infra("client connect failed for lack of local resources: %r" % (ex,))
+            try:
+                s.close()
+            except Exception:  # noqa
+                pass
+            return "connect-failed:%s" % errno.errorcode.get(ex.errno, ex.errno)
         s.settimeout(None)
         self.sock, self.open = s, True
         if self.sess.auth and cred in ("g", "b"):
